@@ -199,6 +199,8 @@ def compare_outcome(impl, model, opts=None):
     """returns a list of differences between the implementation's and the model's canonical outcomes"""
     opts = opts or {}
     diffs = []
+    if model.get("harness_tree_inconsistent"):
+        raise Broken("machinery self-check: the pruned syntax tree shipped by the harness does not contain the flat node list in document order (harness/src/ts.rs `pruned` vs `nodes`)")
     if "panic" in impl:
         mk = [e.get("kind") for e in model.get("ctx", {}).get("err", [])]
         if "panic" in mk:
